@@ -12,11 +12,92 @@ func runScenarioExt(c *corr.Ctx, sc *Scenario) bool {
 	case "sess":
 		runSess(c, sc)
 		return true
+	case "kernel":
+		runKernel(c, sc)
+		return true
 	}
 	return false
 }
 
+// sweepSess: one UDP victim (recording or playing, two medias), then a datagram on each listener
+// from every address form x every port around the negotiated ones, before and after a PAUSE.
+func sweepSess(c *corr.Ctx, record bool, a net.IP, base int) *Scenario {
+	sc := &Scenario{Kind: "sess", Name: fmt.Sprintf("sweep-sess-%v-%d-%d", record, len(a), base)}
+	other := a
+	if len(a) == 4 {
+		other = mapped(a)
+	} else if a.To4() != nil {
+		other = a.To4()
+	}
+	ips := []net.IP{a, other, net.IPv4(10, 0, 0, 6).To4(), nearMapped(net.IPv4(10, 0, 0, 5), 0), nearMapped(net.IPv4(10, 0, 0, 5), 1),
+		nearMapped(net.IPv4(10, 0, 0, 5), 2), net.ParseIP("::1"), net.ParseIP("::a00:5"), net.IPv4(10, 0, 0, 4).To4()}
+	sc.Ops = append(sc.Ops, Op{K: "xconn", Conn: 0, IP: hexIP(a)})
+	if record {
+		sc.Ops = append(sc.Ops, Op{K: "xreq", Method: "ANNOUNCE", Sess: -1},
+			Op{K: "xreq", Method: "SETUP", Any: true, Media: 0, Port: base},
+			Op{K: "xreq", Method: "SETUP", Any: true, Media: 1, Port: base + 2},
+			Op{K: "xreq", Method: "RECORD"})
+	} else {
+		sc.Ops = append(sc.Ops, Op{K: "xreq", Method: "SETUP", Sess: -1, Media: 0, Port: base},
+			Op{K: "xreq", Method: "SETUP", Media: 1, Port: base + 2},
+			Op{K: "xreq", Method: "PLAY"})
+	}
+	shoot := func() {
+		for _, ip := range ips {
+			for port := base - 1; port <= base+4; port++ {
+				for _, ch := range []string{"rtp", "rtcp"} {
+					sc.Ops = append(sc.Ops, Op{K: "xdgram", Chan: ch, IP: hexIP(ip), Port: port, Media: (port - base) / 2 & 1})
+				}
+			}
+		}
+	}
+	shoot()
+	sc.Ops = append(sc.Ops, Op{K: "xreq", Method: "PAUSE"})
+	shoot()
+	if record {
+		sc.Ops = append(sc.Ops, Op{K: "xreq", Method: "RECORD"})
+	} else {
+		sc.Ops = append(sc.Ops, Op{K: "xreq", Method: "PLAY"})
+	}
+	shoot()
+	sc.Ops = append(sc.Ops, Op{K: "xreq", Method: "TEARDOWN"})
+	shoot()
+	return sc
+}
+
+func kernelScenarios(c *corr.Ctx) []*Scenario {
+	var out []*Scenario
+	add := func(k kcfg) { out = append(out, &Scenario{Kind: "kernel", Name: "kernel-" + k.String(), Cfg: k.String()}) }
+	for _, rec := range []bool{false, true} {
+		for _, wild := range []bool{false, true} {
+			for _, any := range []bool{false, true} {
+				if rec && any {
+					continue // AnyPortEnable matters for readers; publishers need server ports anyway
+				}
+				add(kcfg{Record: rec, AnyPort: any, Wild: wild, Mode: "traffic"})
+			}
+		}
+		add(kcfg{Record: rec, Mode: "timeout-foreign", Wild: true})
+		add(kcfg{Record: rec, Mode: "timeout-legit"})
+		add(kcfg{Record: rec, Mode: "steal-udp"})
+		add(kcfg{Record: rec, Mode: "steal-tcp", Wild: rec})
+	}
+	add(kcfg{AnyPort: true, Mode: "timeout-foreign"})
+	return out
+}
+
 func runExt(c *corr.Ctx) {
+	for _, sc := range kernelScenarios(c) {
+		runScenario(c, sc)
+	}
+	for _, rec := range []bool{false, true} {
+		for _, a := range []net.IP{net.IPv4(10, 0, 0, 5).To4(), mapped(net.IPv4(10, 0, 0, 5))} {
+			for _, base := range []int{5000, 65532} {
+				c.Dist("sweep-sess")
+				runScenario(c, sweepSess(c, rec, a, base))
+			}
+		}
+	}
 	for i, n := 0, c.N(700, 20000); i < n; i++ {
 		runScenario(c, genSess(c, i))
 	}
@@ -122,6 +203,12 @@ func genSess(c *corr.Ctx, i int) *Scenario {
 
 	author := g.open(0)
 	target := c.Rng.IntN(13)
+	if sc.Cfg == "noudp" && c.Rng.IntN(2) == 0 {
+		target = 12
+	}
+	if c.Rng.IntN(3) == 0 {
+		target = []int{2, 3, 6, 7}[c.Rng.IntN(4)] // streaming states are where the binding matters most
+	}
 	v := g.victim(author, target, base)
 	victims := []int{v}
 	if c.Rng.IntN(3) == 0 {
@@ -135,9 +222,14 @@ func genSess(c *corr.Ctx, i int) *Scenario {
 		vi := victims[c.Rng.IntN(len(victims))]
 		switch r := c.Rng.IntN(20); {
 		case r < 9: // an intruder: new connection, replays a request with the victim's id
-			cid := g.open(1 + c.Rng.IntN(len(g.ips)-1))
-			if c.Rng.IntN(4) == 0 {
+			var cid int
+			switch q := c.Rng.IntN(10); {
+			case q < 3:
 				cid = g.open(0) // same address, other connection
+			case q < 5:
+				cid = g.open(1) // same address in its other form
+			default:
+				cid = g.open(2 + c.Rng.IntN(len(g.ips)-2))
 			}
 			m := sessMethods[c.Rng.IntN(len(sessMethods))]
 			proto := []string{"udp", "tcp"}[c.Rng.IntN(2)]
@@ -155,7 +247,15 @@ func genSess(c *corr.Ctx, i int) *Scenario {
 			g.req(author, m, sess, proto, c.Rng.IntN(3) == 0, c.Rng.IntN(3), g.ports[c.Rng.IntN(len(g.ports))])
 		case r < 18: // a datagram
 			ch := []string{"rtp", "rtcp"}[c.Rng.IntN(2)]
-			sc.Ops = append(sc.Ops, Op{K: "xdgram", Chan: ch, IP: hexIP(g.ips[c.Rng.IntN(len(g.ips))]), Port: g.ports[c.Rng.IntN(len(g.ports))], Media: c.Rng.IntN(2)})
+			ipIdx := c.Rng.IntN(len(g.ips))
+			if c.Rng.IntN(10) < 6 {
+				ipIdx = c.Rng.IntN(2)
+			}
+			port := g.ports[c.Rng.IntN(len(g.ports))]
+			if c.Rng.IntN(10) < 6 {
+				port = base + c.Rng.IntN(4)
+			}
+			sc.Ops = append(sc.Ops, Op{K: "xdgram", Chan: ch, IP: hexIP(g.ips[ipIdx]), Port: port, Media: c.Rng.IntN(2)})
 		case r < 19:
 			sc.Ops = append(sc.Ops, Op{K: "xclose", Conn: c.Rng.IntN(g.nextCid)})
 		default: // a request without / with an unknown session id from a fresh connection
